@@ -54,7 +54,7 @@ func (prop) Drive(d *core.Driver) error {
 	d.T.Rule = "a random tree of 2-12 template files (page, layouts, partials, imported libraries) in directories incl. odd but valid names (..a, a.., leading dots, Unicode), with extends/import/render references written as relative, absolute and dot-dot paths, with escaping, missing and syntactically invalid targets, self references, longer cycles and diamonds, is built through a recording fs.FS (half of the cases as FormatFS); distinct_nontrivial counts distinct (fs kind, build result, error classes reachable in the model, kinds of path forms used, number of files opened bucket) signatures"
 	d.T.Assumptions = []string{
 		"cross-role references that the parser documents as errors (render of an imported file, import of a rendered/extended file) are not generated, except through cycles that reach the root",
-		"termination is observed as the worker finishing within the watchdog; a cycle that recursed would end as a crash (stack overflow) or timeout, not as a verdict by wall clock",
+		"termination is observed in logical units: the recording file system stops the build (panic caught by the sentinel) when one name is opened more than 25 times, which an unbounded recursion over a cycle reaches at once; otherwise a child crash (stack overflow) is attributed through the journal. No wall-clock verdict",
 	}
 	var cases []core.Case
 	for i := 0; i < n; i++ {
@@ -195,6 +195,7 @@ func (prop) Work(c core.Case) core.Result {
 	res := core.Result{Status: core.OK, Evals: 1, Counts: map[string]int64{}}
 	files := tmplfiles.FromStrings(cd.Files)
 	rec := tmplfiles.NewRecFS(files)
+	rec.Limit = 25
 	var fsys fs.FS = rec
 	if cd.FormatFS {
 		table := map[string]scriggo.Format{}
@@ -210,6 +211,9 @@ func (prop) Work(c core.Case) core.Result {
 	}
 	v := analyse(&cd)
 	_, o := tmplfiles.Build(fsys, cd.Root, &scriggo.BuildOptions{MarkdownConverter: tmplfiles.MarkdownConverter})
+	if strings.Contains(o.Panic, "recfs:") {
+		return fail("the loader does not terminate: one file was opened more than %d times in one build (model: %v)", rec.Limit, keys(v.errs))
+	}
 	if o.Panic != "" {
 		return fail("%s", core.Truncate(o.Panic, 2500))
 	}
